@@ -334,6 +334,7 @@ async fn ports_peer(sh: Rc<RefCell<PortsShared>>, nt: Rc<Notify>) -> turmoil::Re
 
 #[derive(Clone, Debug)]
 struct SlotInfo {
+    lo: bool,     // bound to the loopback address
     kind: String, // udp | lst | out | in
     port: u16,
     peer: u16,
@@ -448,7 +449,7 @@ impl<'a> PortsRun<'a> {
                 if res > 0 {
                     self.slots.insert(
                         s,
-                        SlotInfo { kind: if proto == "udp" { "udp" } else { "lst" }.into(), port: res as u16, peer: 0, r: true, w: true },
+                        SlotInfo { lo, kind: if proto == "udp" { "udp" } else { "lst" }.into(), port: res as u16, peer: 0, r: true, w: true },
                     );
                 }
                 json!({"ev":"bind","proto":proto,"kind":kind,"s":s,"p":p,"res":res})
@@ -474,7 +475,7 @@ impl<'a> PortsRun<'a> {
                 if res > 0 {
                     self.slots.insert(
                         s,
-                        SlotInfo { kind: "out".into(), port: res as u16, peer: r["peer"].as_u64().unwrap() as u16, r: true, w: true },
+                        SlotInfo { lo: false, kind: "out".into(), port: res as u16, peer: r["peer"].as_u64().unwrap() as u16, r: true, w: true },
                     );
                 }
                 json!({"ev":"connect","s":s,"how":how,"res":res})
@@ -490,7 +491,7 @@ impl<'a> PortsRun<'a> {
                 if res > 0 {
                     self.slots.insert(
                         s,
-                        SlotInfo { kind: "in".into(), port: res as u16, peer: r["peer"].as_u64().unwrap() as u16, r: true, w: true },
+                        SlotInfo { lo: false, kind: "in".into(), port: res as u16, peer: r["peer"].as_u64().unwrap() as u16, r: true, w: true },
                     );
                 }
                 json!({"ev":"accept","s":s,"l":l,"res":res})
@@ -783,7 +784,7 @@ fn main_ports_random(args: &[String]) {
         for _ in 0..nops {
             let free = (1..=maxsock).find(|s| !run.slots.contains_key(s));
             let live: Vec<usize> = run.slots.keys().copied().collect();
-            let lsts: Vec<usize> = run.slots.iter().filter(|(_, i)| i.kind == "lst").map(|(s, _)| *s).collect();
+            let lsts: Vec<usize> = run.slots.iter().filter(|(_, i)| i.kind == "lst" && !i.lo).map(|(s, _)| *s).collect();
             let strs: Vec<usize> = run.slots.iter().filter(|(_, i)| i.kind == "out" || i.kind == "in").map(|(s, _)| *s).collect();
             let pick = rng.random_range(0..100);
             let o = if let (true, Some(s)) = (pick < 55, free) {
@@ -1074,8 +1075,10 @@ async fn tcp_exec(
                     Poll::Pending => json!({"ev":"accept","h":h,"p":p,"res":"pending","c":0}),
                     Poll::Ready(Ok((st, origin))) => {
                         let local = st.local_addr().unwrap().to_string();
-                        ends.insert(origin.to_string(), End::Whole(st));
-                        json!({"ev":"accept","h":h,"p":p,"res":"ok","o":origin.to_string(),"local":local,"peer":origin.to_string()})
+                        // a later connector may re-use the origin address: every accepted stream gets a key of its own
+                        let key = format!("{origin}#{}", ends.len() + listeners.len() + futs.len() + rec::len());
+                        ends.insert(key.clone(), End::Whole(st));
+                        json!({"ev":"accept","h":h,"p":p,"res":"ok","o":origin.to_string(),"key":key,"local":local,"peer":origin.to_string()})
                     }
                     Poll::Ready(Err(e)) => json!({"ev":"accept","h":h,"p":p,"res":errname(&e),"c":0}),
                 };
@@ -1167,6 +1170,24 @@ struct TcpRun<'a> {
     /// same-host connectors whose request travels through the loopback path (no "Send" event):
     /// their requests arrive in the order they were started (constant one-tick delay)
     loop_pending: VecDeque<u64>,
+    /// the wire TLC predicted before the current action (replay mode): with a small ephemeral
+    /// range two connectors share an address, and a message is then identified by its position
+    model_wire: Vec<WireMsg>,
+    /// connectors that gave up / were refused, and connectors already accepted (bookkeeping from
+    /// the results of the calls; used to attribute an accepted origin address to a connector)
+    dead: std::collections::BTreeSet<u64>,
+    accepted: std::collections::BTreeSet<u64>,
+    /// c -> the server puppet's key of the stream accepted for connector c
+    srv_key: BTreeMap<u64, String>,
+}
+
+/// An in-flight message as Sim::links shows it: the connector's address, the side it travels to.
+#[derive(Clone, Debug, PartialEq)]
+struct RawMsg {
+    addr: String,
+    to: u64,
+    kind: String,
+    seq: u64,
 }
 
 fn hostname(h: usize, nh: usize) -> String {
@@ -1178,13 +1199,16 @@ fn hostname(h: usize, nh: usize) -> String {
 }
 
 impl<'a> TcpRun<'a> {
-    fn new(nh: usize, cap: usize, v6: bool, seed: u64) -> TcpRun<'a> {
-        Self::with(nh, cap, v6, seed, 1, 1, 1, false)
+    fn new(nh: usize, cap: usize, v6: bool, seed: u64, nports: u16) -> TcpRun<'a> {
+        Self::with(nh, cap, v6, seed, 1, 1, 1, false, nports)
     }
 
     #[allow(clippy::too_many_arguments)]
-    fn with(nh: usize, cap: usize, v6: bool, seed: u64, tick: u64, lmin: u64, lmax: u64, random: bool) -> TcpRun<'a> {
+    fn with(nh: usize, cap: usize, v6: bool, seed: u64, tick: u64, lmin: u64, lmax: u64, random: bool, nports: u16) -> TcpRun<'a> {
         let mut b = turmoil::Builder::new();
+        if nports > 0 {
+            b.ephemeral_ports(49152..=(49152 + nports - 1));
+        }
         b.tick_duration(Duration::from_millis(tick))
             .min_message_latency(Duration::from_millis(lmin))
             .max_message_latency(Duration::from_millis(lmax))
@@ -1219,6 +1243,10 @@ impl<'a> TcpRun<'a> {
             last_results: Vec::new(),
             random,
             loop_pending: VecDeque::new(),
+            model_wire: Vec::new(),
+            dead: Default::default(),
+            accepted: Default::default(),
+            srv_key: BTreeMap::new(),
         };
         r.raw_step();
         rec::take();
@@ -1281,8 +1309,30 @@ impl<'a> TcpRun<'a> {
                         }
                     }
                     if let Some(o) = e.get("o").and_then(|v| v.as_str()).map(|s| s.to_string()) {
-                        let c = self.syn_src.iter().find(|(_, a)| **a == o).map(|(c, _)| *c).unwrap_or(0);
+                        // the origin address names the connector; if several connectors used that address
+                        // one after the other, it is the one still waiting (a dead one would have been skipped)
+                        let cands: Vec<u64> = self.syn_src.iter().filter(|(_, a)| **a == o).map(|(c, _)| *c).collect();
+                        let c = cands
+                            .iter()
+                            .find(|c| !self.dead.contains(c) && !self.accepted.contains(c))
+                            .or(cands.first())
+                            .copied()
+                            .unwrap_or(0);
                         e["c"] = json!(c);
+                        self.accepted.insert(c);
+                        if let Some(k) = e["key"].as_str() {
+                            self.srv_key.insert(c, k.to_string());
+                        }
+                    }
+                    let cc = e["c"].as_u64().unwrap_or(0);
+                    match (ev.as_str(), e["res"].as_str()) {
+                        ("cancel", _) => {
+                            self.dead.insert(cc);
+                        }
+                        ("connect", Some(r)) | ("poll", Some(r)) if r != "pending" && r != "ok" => {
+                            self.dead.insert(cc);
+                        }
+                        _ => {}
                     }
                     self.last_results.push(e.clone());
                     self.trace.push(e);
@@ -1296,7 +1346,7 @@ impl<'a> TcpRun<'a> {
         if s == 1 {
             format!("c{c}")
         } else {
-            self.syn_src.get(&c).cloned().unwrap_or_default()
+            self.srv_key.get(&c).cloned().unwrap_or_default()
         }
     }
 
@@ -1312,9 +1362,9 @@ impl<'a> TcpRun<'a> {
         (0, 0)
     }
 
-    /// Sim::links as model-level message ids, link by link, in queue order.
-    fn links(&self) -> Vec<WireMsg> {
-        let mut raw: Vec<(String, String, String, u64)> = Vec::new();
+    /// Sim::links, link by link, in queue order.
+    fn raw_links(&self) -> Vec<RawMsg> {
+        let mut raw: Vec<RawMsg> = Vec::new();
         self.sim.links(|links| {
             for link in links {
                 for sent in link {
@@ -1326,22 +1376,33 @@ impl<'a> TcpRun<'a> {
                         Protocol::Tcp(Segment::Rst) => ("rst", 0),
                         _ => ("other", 0),
                     };
-                    raw.push((src.to_string(), dst.to_string(), kind.to_string(), seq));
+                    // listeners use ports 7001.. ; the other end is the connector
+                    let to_server = (7001..7100).contains(&dst.port()) && !(7001..7100).contains(&src.port());
+                    let (addr, to) = if to_server { (src.to_string(), 2) } else { (dst.to_string(), 1) };
+                    raw.push(RawMsg { addr, to, kind: kind.to_string(), seq });
                 }
             }
         });
-        raw.into_iter()
-            .map(|(src, dst, kind, seq)| {
-                let (c, to) = self.resolve(&src, &dst);
-                WireMsg { c, to, kind, seq }
+        raw
+    }
+
+    fn raw_of(&self, m: &WireMsg) -> RawMsg {
+        RawMsg { addr: self.syn_src.get(&m.c).cloned().unwrap_or_default(), to: m.to, kind: m.kind.clone(), seq: m.seq }
+    }
+
+    /// Sim::links as model-level message ids (the latest connector that used the address).
+    fn links(&self) -> Vec<WireMsg> {
+        self.raw_links()
+            .into_iter()
+            .map(|r| {
+                let c = self.syn_src.iter().filter(|(_, a)| **a == r.addr).map(|(c, _)| *c).max().unwrap_or(0);
+                WireMsg { c, to: r.to, kind: r.kind, seq: r.seq }
             })
             .collect()
     }
 
-    /// SentRef::deliver on the first in-flight message equal to m.
-    fn deliver(&mut self, m: &WireMsg) -> bool {
-        let all = self.links();
-        let Some(idx) = all.iter().position(|x| x == m) else { return false };
+    /// SentRef::deliver on the idx-th in-flight message (global order of Sim::links).
+    fn deliver_index(&mut self, idx: usize) {
         let mut k = 0usize;
         self.sim.links(|links| {
             for link in links {
@@ -1353,7 +1414,25 @@ impl<'a> TcpRun<'a> {
                 }
             }
         });
-        true
+    }
+
+    /// SentRef::deliver on the in-flight message the model calls m.  Messages of connectors that
+    /// share an address look alike on the wire: the model's queue position tells them apart.
+    fn deliver(&mut self, m: &WireMsg) -> bool {
+        let want = self.raw_of(m);
+        let ord = match self.model_wire.iter().position(|x| x == m) {
+            Some(p) => self.model_wire[..p].iter().filter(|x| self.raw_of(x) == want).count(),
+            None => 0,
+        };
+        let raw = self.raw_links();
+        let hits: Vec<usize> = raw.iter().enumerate().filter(|(_, r)| **r == want).map(|(i, _)| i).collect();
+        match hits.get(ord).or(hits.first()) {
+            Some(&idx) => {
+                self.deliver_index(idx);
+                true
+            }
+            None => false,
+        }
     }
 
     fn cmd(&mut self, h: usize, c: TCmd) {
@@ -1380,6 +1459,7 @@ struct TcpCfg {
     cap: usize,
     v6: bool,
     pre: bool,
+    nports: u16,
 }
 
 /// Execute one model action (label `op`) on the run; returns the observation to
@@ -1553,7 +1633,7 @@ fn tcp_agrees(op: &Value, obs: &Option<Value>) -> bool {
 }
 
 fn tcp_replay_one(beh: &[Value], cfg: &TcpCfg) -> (Option<Value>, Option<Value>, Vec<Value>, bool) {
-    let mut run = TcpRun::new(cfg.nh, cfg.cap, cfg.v6, 1);
+    let mut run = TcpRun::new(cfg.nh, cfg.cap, cfg.v6, 1, cfg.nports);
     let mut conn_host: BTreeMap<u64, usize> = BTreeMap::new();
     let mut rdiv = None;
     let mut tdiv = None;
@@ -1583,54 +1663,53 @@ fn tcp_replay_one(beh: &[Value], cfg: &TcpCfg) -> (Option<Value>, Option<Value>,
         if rdiv.is_none() && !tcp_agrees(op, &obs) {
             rdiv = Some(json!({"at":i,"what":"result","want":op,"got":obs}));
         }
-        if tdiv.is_none() {
-            let got: Vec<Value> = run.links().iter().map(|m| json!({"c":m.c,"to":m.to,"kind":m.kind,"seq":m.seq})).collect();
-            // per link: the model's wire is one global queue; compare link by link (= per connector host)
-            let mut want: Vec<Value> = Vec::new();
-            for h in 1..cfg.nh {
-                for m in e["wire"].as_array().unwrap() {
-                    if conn_host.get(&m["c"].as_u64().unwrap()) == Some(&h) {
-                        want.push(m.clone());
-                    }
+        let parse = |m: &Value| WireMsg {
+            c: m["c"].as_u64().unwrap(),
+            to: m["to"].as_u64().unwrap(),
+            kind: m["kind"].as_str().unwrap().into(),
+            seq: m["seq"].as_u64().unwrap(),
+        };
+        // the model's wire is one global queue; Sim::links goes link by link (= per connector host)
+        let mut want_model: Vec<WireMsg> = Vec::new();
+        for h in 1..cfg.nh {
+            for m in e["wire"].as_array().unwrap() {
+                if conn_host.get(&m["c"].as_u64().unwrap()) == Some(&h) {
+                    want_model.push(parse(m));
                 }
             }
-            let cnt: Vec<Value> = run.counts().into_iter().map(|n| json!(n)).collect();
-            if json!(got) != json!(want) {
-                tdiv = Some(json!({"at":i,"what":"links","want":want,"got":got}));
-            }
-            // the stream count is an observation of the PropSpec (clause Reclaimed): judged, not drift
-            if rdiv.is_none() && json!(cnt) != e["cnt"] {
-                rdiv = Some(json!({"at":i,"what":"counts","want":e["cnt"],"got":cnt}));
-            }
         }
+        let want: Vec<RawMsg> = want_model.iter().map(|m| run.raw_of(m)).collect();
+        let got = run.raw_links();
+        if tdiv.is_none() && got != want {
+            tdiv = Some(json!({"at":i,"what":"links","want":format!("{want:?}"),"got":format!("{got:?}")}));
+        }
+        // the stream count is an observation of the PropSpec (clause Reclaimed): judged, not drift
+        let cnt: Vec<Value> = run.counts().into_iter().map(|n| json!(n)).collect();
+        if rdiv.is_none() && json!(cnt) != e["cnt"] {
+            rdiv = Some(json!({"at":i,"what":"counts","want":e["cnt"],"got":cnt}));
+        }
+        run.model_wire = e["wire"].as_array().unwrap().iter().map(parse).collect();
         // Messages the ImplSpec does not predict (the code sent something extra) cannot be
         // scheduled by the behaviour: they are delivered at once, oldest first, so that
         // their effect becomes observable and the PropSpec can judge it.
         loop {
-            let want: Vec<WireMsg> = e["wire"]
-                .as_array()
-                .unwrap()
-                .iter()
-                .map(|m| WireMsg { c: m["c"].as_u64().unwrap(), to: m["to"].as_u64().unwrap(), kind: m["kind"].as_str().unwrap().into(), seq: m["seq"].as_u64().unwrap() })
-                .collect();
             let mut rest = want.clone();
             let mut extra = None;
-            for m in run.links() {
+            for (idx, m) in run.raw_links().into_iter().enumerate() {
                 if let Some(k) = rest.iter().position(|x| *x == m) {
                     rest.remove(k);
                 } else {
-                    extra = Some(m);
+                    extra = Some((idx, m));
                     break;
                 }
             }
-            let Some(m) = extra else { break };
-            if !run.deliver(&m) {
-                break;
-            }
+            let Some((idx, m)) = extra else { break };
+            let c = run.syn_src.iter().filter(|(_, a)| **a == m.addr).map(|(c, _)| *c).max().unwrap_or(0);
+            run.deliver_index(idx);
             run.step();
-            run.trace.push(json!({"ev":"deliver","c":m.c,"to":m.to,"kind":m.kind,"seq":m.seq,"unexpected":true}));
+            run.trace.push(json!({"ev":"deliver","c":c,"to":m.to,"kind":m.kind,"seq":m.seq,"unexpected":true}));
             if m.kind == "syn" {
-                run.trace.push(json!({"ev":"syn_arrive","c":m.c}));
+                run.trace.push(json!({"ev":"syn_arrive","c":c}));
             }
         }
     }
@@ -1647,6 +1726,7 @@ fn main_tcp_replay(args: &[String]) {
         cap: util::arg_u64(args, "cap", 2) as usize,
         v6: util::arg_u64(args, "v6", 0) == 1,
         pre: util::arg_u64(args, "pre", 0) == 1,
+        nports: util::arg_u64(args, "nports", 0) as u16,
     };
     let text = std::fs::read_to_string(&inp).expect("read behaviours");
     let (mut total, mut nontrivial, mut ndiv, mut nres) = (0u64, 0u64, 0u64, 0u64);
@@ -1756,7 +1836,7 @@ fn main_tcp_random(args: &[String]) {
             let res = catch_all(|| {
             let mut rng = SmallRng::seed_from_u64(run_seed);
             let (mut nops, mut nfault, mut nreorder) = (0u64, 0u64, 0u64);
-            let mut run = TcpRun::with(nh, cap, v6, seed.wrapping_mul(1000).wrapping_add(r), tick, lmin, lmax, true);
+            let mut run = TcpRun::with(nh, cap, v6, seed.wrapping_mul(1000).wrapping_add(r), tick, lmin, lmax, true, 0);
             let mut conns: BTreeMap<u64, RConn> = BTreeMap::new();
             let mut conn_host: BTreeMap<u64, usize> = BTreeMap::new();
             let mut bound: BTreeMap<u64, String> = BTreeMap::new();
